@@ -613,6 +613,8 @@ func regNode(v any) *tnode { return registry[registryIndex[reflect.TypeOf(v)]].n
 
 func runC15(cfg *config) {
 	w := newCaseWriter(cfg.out)
+	progressPath = cfg.out + ".progress"
+	clearProgress()
 	defer w.close()
 	if cfg.replay != "" {
 		var seq [][]string
